@@ -15,12 +15,27 @@ def type_decl_spans(P, text):
     return out
 
 
+ARRIVALS = {}
+
+
+def _arr(k): ARRIVALS[k] = ARRIVALS.get(k, 0) + 1
+
+
+def report(part):
+    """how the documents of this worker reached the server (evidence)"""
+    for k, v in ARRIVALS.items(): part.cnt("documents_" + k, v)
+    ARRIVALS.clear()
+
+
 def arrive(srv, uri, text, salt, p=.33, prefer=None):
     """opens the document; with probability p it *arrives* at the text by an edit: an earlier version (a random span and, half of the
     time, one blank missing) is opened and one didChange notification restores it. The server then holds exactly `text`, so every
     oracle applies unchanged, but the answers come from the incrementally updated analysis. Returns True if it arrived by an edit."""
     r = random.Random("arrive/%d/%s" % (len(text), salt))
-    if p and r.random() < p and len(text) > 2:
+    if p and r.random() < p * .45 and len(text) > 2:
+        if arrive_chain(srv, uri, text, r, prefer): return True
+        _arr("opened_fresh"); srv.open(uri, text); return False
+    elif p and r.random() < p and len(text) > 2:
         a, e = sorted(r.sample(range(len(text) + 1), 2))
         if r.random() < .5: e = min(e, a + r.choice([1, 3, 10, 40]))
         if prefer and r.random() < .5:
@@ -47,9 +62,60 @@ def arrive(srv, uri, text, salt, p=.33, prefer=None):
             from . import lspmodel
             if lspmodel.apply_changes(t0, changes) == text:          # (the harness's own arithmetic is checked against the LSP model)
                 srv.open(uri, t0); srv.change(uri, changes, 1)
-                return True
-    srv.open(uri, text)
+                _arr("reached_by_one_edit"); return True
+    _arr("opened_fresh"); srv.open(uri, text)
     return False
+
+
+def arrive_chain(srv, uri, text, r, prefer=None):
+    """the longer way to the text: 1-3 edits, built backwards from `text`. Each edit inserts a missing span, deletes a surplus chunk
+    (a copy of a span from elsewhere in the document) or replaces such a chunk by the span that belongs there; the edits come in
+    separate notifications or batched in one; one way in ten the URI first held another text, was closed and is opened again.
+    Whatever the way, the server ends up holding exactly `text`."""
+    from . import lspmodel
+    if r.random() < .1:
+        other = text[:len(text) // 2] if r.random() < .5 else text + text[len(text) // 3:]
+        srv.open(uri, other)
+        if r.random() < .5:
+            try: srv.change(uri, [{"text": other + " "}], 1)
+            except Exception: pass
+        srv.close_doc(uri); srv.open(uri, text)
+        _arr("reopened_after_close"); return True
+    cur = text; back = []                                    # back[i] = (previous text, change leading from it to the next text)
+    for _ in range(r.choice([1, 2, 2, 3])):
+        if len(cur) < 3: break
+        a, e = sorted(r.sample(range(len(cur) + 1), 2))
+        if r.random() < .6: e = min(e, a + r.choice([1, 3, 10, 40]))
+        if prefer and not back and r.random() < .4:
+            pa_, pe_ = r.choice(prefer)
+            if pe_ - pa_ >= 2 and pe_ <= len(cur): a, e = sorted(r.sample(range(pa_, pe_ + 1), 2)) if r.random() < .6 else (pa_, pe_)
+        mode = r.choice(["ins", "ins", "del", "repl"])
+        if mode == "del": e = a
+        if mode == "ins" and e == a: continue
+        old = ""
+        if mode != "ins":
+            x = r.randrange(len(cur)); old = cur[x:x + r.choice([1, 2, 5, 12, 30])]
+        prev = cur[:a] + old + cur[e:]
+        if prev == cur: continue
+        T = layout.Text(prev)
+        ch = {"range": {"start": T.lsp(len(prev[:a].encode())), "end": T.lsp(len(prev[:a + len(old)].encode()))}, "text": cur[a:e]}
+        if lspmodel.apply_changes(prev, [ch]) != cur: continue          # (a cut between CR and LF: the LSP line model reads the range differently)
+        back.append((prev, ch)); cur = prev
+    if not back: return False
+    back.reverse()
+    changes = [ch for _, ch in back]
+    if lspmodel.apply_changes(back[0][0], changes) != text: return False
+    if r.random() < .15:
+        # ... the notification ends with a full-text replacement (ranged changes that altered the length in front of it)
+        batch = changes + [{"text": text}] if r.random() < .5 else changes[:-1] + [{"text": lspmodel.apply_changes(back[0][0], changes[:-1]) + " "}, {"text": text}]
+        if lspmodel.apply_changes(back[0][0], batch) != text: return False
+        srv.open(uri, back[0][0]); srv.change(uri, batch, 1)
+        _arr("reached_by_batch_ending_in_full_text"); return True
+    srv.open(uri, back[0][0])
+    if len(changes) > 1 and r.random() < .4: srv.change(uri, changes, 1)
+    else:
+        for v, ch in enumerate(changes): srv.change(uri, [ch], v + 1)
+    _arr("reached_by_chain_of_%d" % len(changes)); return True
 
 
 class Session:
